@@ -496,7 +496,11 @@ func checkCLIState(r *evid.Run, bin string, pool *wproto.Pool, s *cliState) {
 		return
 	}
 	// stdout and filesystem effect are the library's, for the options the invocation is wired to
-	twinDir, _ := os.MkdirTemp("", "verif-cli-twin-")
+	twinDir, terr := os.MkdirTemp("", "verif-cli-twin-")
+	if terr != nil {
+		r.Count("cli_runs_without_verdict", 1)
+		return
+	}
 	defer os.RemoveAll(twinDir)
 	for _, e := range before { // same starting directory
 		p := filepath.Join(twinDir, e[2:])
